@@ -5,19 +5,16 @@ CONSTANTS
   Durs = {1}
   CDurs <- ZeroDur
   EDurs <- ZeroDur
-  Rets <- RetsTwoSmall
+  Rets <- RetsWin
   Advs <- AdvsTwo
   Decs <- DecsSleep
   BFaults <- BFaultsNone
   Ras <- RasNone
   Modes = {"exec"}
-  RunGaps <- GapsC10
-  NRuns = 3
-  Configs <- ConfigsC10T
-  RecordHist = FALSE
+  RunGaps <- GapsC10y
+  NRuns = 2
+  Configs <- ConfigsC10y
+  RecordHist = TRUE
 INVARIANT NoViolation
-INVARIANT AttemptsBounded
-INVARIANT InvokeWithinDeadline
-INVARIANT SleepWithinRemaining
-INVARIANT DeliveriesRelated
+INVARIANT ExportBehaviours
 CHECK_DEADLOCK FALSE
